@@ -589,7 +589,7 @@ class CausalInference(object):
             do_vars = [var for var, state in do.items()]
             adjustment_set = set(
                 chain(*[self.model.predecessors(var) for var in do_vars])
-            )
+            ).difference(do_vars)
             if len(adjustment_set.intersection(self.model.latents)) != 0:
                 raise ValueError(
                     "Not all parents of do variables are observed. Please specify an adjustment set."
